@@ -212,7 +212,64 @@ CLAIMED.update({
         note="Trusts rustc's MIR dump, engines/mirsem.py + mirflow.py, z3, and contract models for Context::try_cmp / supertype_of_tp / TyParam equality / has_*_bound on integer literals, "
              "Context::reduce_preds (a subset with the same intersection/union; every subset explored), Predicate::ands/ors, erg_common Set::iter/get_by and std Option/Iterator adaptors; the "
              "scalar contracts are validated natively on 36 literal pairs per run and the whole encoding on ~300 concrete predicate pairs against the real function (cargo test on the scratch copy).",
-        design="0b/C03"),
+        design="0b/C03 and C32"),
+})
+
+
+CLAIMED.update({
+    "C32": dict(
+        engine="mirsem",
+        technique="symbolic execution of the rustc MIR of Predicate::and / or / invert and the derived constructors gt / lt / ge / le / eq / ne on operand shapes with unbounded symbolic "
+                  "integer bounds, symbolic atom kinds and symbolic truth values; the predicate each path builds is read back structurally and z3 decides that it denotes the intersection / "
+                  "union / complement of the operands' sets at an arbitrary integer; recursive uses are inlined from the same MIR dump or replaced by their specification on opaque "
+                  "sub-predicates (one inductive step); counterexamples are replayed on the real functions and the encoding is validated natively on every run",
+        category="other",
+        text="For every pair (and / or) and every single operand (invert) of refinement predicates over one integer variable built from I == n, I >= n, I <= n, I != n (every integer n), "
+             "True/False, And, Or and Not of those up to depth 2 (thorough: depth 3 and mixed nestings), z3 shows that the predicate the combinator returns is satisfied by exactly the "
+             "integers in the intersection / union / complement of the operands' sets, on every path of the compiled function (simplification arms such as `True and p`, `(l and r) and l`, "
+             "`I == n or I >= n`, set insertion and union included); gt / lt / ge / le / eq / ne denote the comparison they name. In mode `rule` the sub-predicates are arbitrary "
+             "(opaque) and the recursive `*r & other` is replaced by its specification, i.e. one inductive step for trees of any depth. Predicates over non-literal bounds, Float bounds, "
+             "Call / Attr / General* predicates and two different subject variables are outside.",
+        note="Trusts rustc's MIR dump, engines/mirsem.py + mirflow.py, z3, the denotation written in props/c03.py (Value(Bool), the four comparison atoms, And, Or as the disjunction of "
+             "its elements, Not), and contract models for Box::new / as_ref / drop, Clone, erg_common Set::{new, insert, union}, Str equality of subjects (always equal) and TyParam "
+             "equality on integer literals; the whole encoding is validated per run against the real functions on ~250 concrete operand tuples over the integers -4..4.",
+        design="0b/C03 and C32"),
+})
+
+
+CLAIMED.update({
+    "C22": dict(
+        engine="mirsem",
+        technique="symbolic execution of the rustc MIR of SideEffectChecker::in_context_effects_allowed on block stacks of concrete length whose entries are solver variables over the block "
+                  "kinds; Vec / slice / iterator accessors are contract models over the shape-concrete stack; z3 decides agreement with the reference walk (instant blocks inherit the "
+                  "context of the innermost enclosing subroutine, constant definition or module); counterexamples are replayed on a real SideEffectChecker and as generated Erg "
+                  "programs through the built compiler; the encoding is validated against the real function on concrete stacks",
+        category="other",
+        text="Kernel-level partial claim: for every nesting of blocks up to depth 5 (thorough 7) - Module at the bottom, then any sequence of functions, procedures, constant functions, "
+             "constant definitions and instant blocks (variable definitions, records) - the predicate that decides whether check_expr reports a side effect answers 'forbidden' exactly "
+             "when the innermost enclosing block that is not an instant block is a function or a constant context, and 'allowed' exactly when it is a procedure or the module. That is "
+             "the part of 'a function cannot perform side effects, the same body in a procedure or at top level can' that does not depend on what counts as an effect. Which expressions "
+             "check_expr treats as effects (procedure calls, mutable references), how it pushes and pops the stack while walking the HIR, and lambdas' own kinds are read, not decided.",
+        note="Trusts rustc's MIR dump, engines/mirsem.py + mirflow.py, z3, the std contract models listed in the evidence, and the invariant that only SideEffectChecker::check pushes Module "
+             "(once, first). The encoding is validated per run against the real function on all stacks of depth <= 3 and a sample of deeper ones (cargo test on the scratch copy).",
+        design="0b/C22"),
+})
+
+
+CLAIMED.update({
+    "C23": dict(
+        engine="mirsem",
+        technique="symbolic execution of the rustc MIR of OwnershipChecker::check_if_dropped on scope chains of concrete depth; per scope, whether the name under test is alive or was moved "
+                  "there is a solver variable; Range / Vec::len / Dict::get / Set::contains are contract models, nth_outer_scope(n) is the n-th scope of the chain (validated natively); z3 "
+                  "decides agreement with the reference lookup; counterexamples are replayed on a real OwnershipChecker and as programs through the built compiler",
+        category="other",
+        text="Kernel-level partial claim: for every chain of enclosing scopes up to depth 3 (thorough 4) and every combination of 'the name is alive here / was moved here / is unknown here' "
+             "per scope, the lookup that decides whether a use is reported as a use after move answers Err exactly when the innermost scope that knows the name has it moved: a moved "
+             "variable is rejected from its own and from every inner scope, and a live variable that shadows a moved outer one is not rejected. When check_expr records a move "
+             "(which parameter kinds, containers and references move a value) and the drop() side of the bookkeeping are read, not decided.",
+        note="Trusts rustc's MIR dump, engines/mirsem.py + mirflow.py, z3, the std contract models listed in the evidence and the invariant that a name is not both alive and moved in one "
+             "scope. The encoding (including the nth_outer_scope contract) is validated per run against the real function on all 3 + 9 + 27 (+ 81) scope chains (cargo test on the scratch copy).",
+        design="0b/C23"),
 })
 
 
